@@ -13,12 +13,13 @@ theorem is for ALL back ends `S`, ALL histories `pre` of operations on one worke
 `suitesparse_Ax_eq_b_partial` turns "returns `sol A b`" into "returns `x` with `A x = b`" from the library
 contract, which `m2_contract` proves for the exact 2x2 solve.
 
+Repaired on the way (`known_findings.json`, fixed): UMFPACK `solve` on a singular matrix reached through the
+re-symbolic branch, and SuiteSparse `linsolve` on a singular matrix, returned `b` unchanged; both now return the
+NaN vector (`suitesparse_singular_reported`, for every compatible history).
+
 What is NOT true on the real code (and therefore excluded by hypothesis, with counterexample theorems):
 * KLU `solve` after a pattern change: the cached symbolic factor is handed to `klu.numeric` (crash or
   wrong vector) — `klu_pattern_change_undefined`;
-* UMFPACK `solve` on a singular matrix reached through the re-symbolic branch returns `b` —
-  `umfpack_singular_after_resymbolic_returns_rhs`;
-* SuiteSparse `linsolve` on a singular matrix returns `b` — `suitesparse_linsolve_singular_returns_rhs`;
 * `PFlow.nr_step` requests the refresh through `new_A`, which the SuiteSparse workers ignore —
   `pflow_newA_ignored_by_klu`.
 -/
@@ -79,30 +80,39 @@ theorem suitesparse_Ax_eq_b_partial (mul : M → V → V)
     ∃ x, stepOut S lib (runSt S lib (init M P lib) pre) (.solve A b) = .vec x ∧ mul A x = b :=
   ⟨S.sol A b, (suitesparse_solves_current_partial S lib hl pre A b hcompat hreg).1, hcontract A b hreg⟩
 
+/-- **A singular matrix is reported** by the all-NaN vector, by `solve` and by `linsolve`, after any history
+with compatible patterns (same pattern throughout, or pattern changes UMFPACK detects) — full strength since
+the repair of the re-symbolic branch of `solve` and of `linsolve`. -/
+theorem suitesparse_singular_reported (lib : Lib) (hl : lib ≠ .spsolve) (pre : List (Op M V)) (A : M) (b : V)
+    (hcompat : HistCompat S lib pre A) (hsing : S.reg A = false) :
+    stepOut S lib (runSt S lib (init M P lib) pre) (.solve A b) = .vec (S.nan b) ∧
+    stepOut S lib (runSt S lib (init M P lib) pre) (.linsolve A b) = .vec (S.nan b) := by
+  let Q : P → Prop := fun q => ∃ B ∈ A :: solved pre, S.pat B = q
+  have hc : Compat S lib Q := by
+    rintro q q' ⟨B, hB, rfl⟩ ⟨B', hB', rfl⟩ hne
+    exact hcompat B hB B' hB' hne
+  have hinv : SsInv Q (runSt S lib (init M P lib) pre) :=
+    runSt_inv S lib hl Q hc pre _ (ssInv_init lib hl Q) (fun B hB => ⟨B, by simp [hB], rfl⟩)
+  have hA : Q (S.pat A) := ⟨A, by simp, rfl⟩
+  have hd := hinv.1
+  have hout : ∀ l : Lib, Compat S l Q → ssSolveOut S l (runSt S lib (init M P lib) pre) A b = .vec (S.nan b) := by
+    intro l hcl
+    rcases numeric_cases S l Q hcl _ hinv A hA with h | h | h
+    · rw [hsing] at h; exact absurd h.2 (by simp)
+    · simp [ssSolveOut, h.1]
+    · simp [ssSolveOut, h.1, hsing]
+  constructor
+  · cases lib with
+    | spsolve => exact absurd rfl hl
+    | klu => simpa [stepOut, hd] using hout .klu hc
+    | umfpack => simpa [stepOut, hd] using hout .umfpack hc
+  · cases lib <;> simp_all [stepOut, ssLinOut]
+
 /-- a singular matrix of the same pattern as everything before is reported by the all-NaN vector -/
 theorem suitesparse_singular_same_pattern_nan (lib : Lib) (hl : lib ≠ .spsolve) (pre : List (Op M V)) (A : M)
     (b : V) (hsame : ∀ B ∈ solved pre, S.pat B = S.pat A) (hsing : S.reg A = false) :
-    stepOut S lib (runSt S lib (init M P lib) pre) (.solve A b) = .vec (S.nan b) := by
-  let Q : P → Prop := fun q => q = S.pat A
-  have hc : Compat S lib Q := by
-    rintro q q' rfl h' hne
-    exact absurd h'.symm hne
-  have hinv : SsInv Q (runSt S lib (init M P lib) pre) :=
-    runSt_inv S lib hl Q hc pre _ (ssInv_init lib hl Q) (fun B hB => hsame B hB)
-  have hd := hinv.1
-  have hnum : ∀ l : Lib, numeric S l (ssF0 S (runSt S lib (init M P lib) pre) A) A = .arith := by
-    intro l
-    unfold ssF0 numeric
-    rcases hinv.2 with hf | ⟨q, hq, hQ⟩
-    · simp [hf, hsing]
-    · by_cases hf : (runSt S lib (init M P lib) pre).factorize = true
-      · simp [hf, hsing]
-      · have hQ' : q = S.pat A := hQ
-        simp [hf, hq, hQ', hsing]
-  cases lib with
-  | spsolve => exact absurd rfl hl
-  | klu => simp [stepOut, hd, ssSolveOut, hnum]
-  | umfpack => simp [stepOut, hd, ssSolveOut, hnum]
+    stepOut S lib (runSt S lib (init M P lib) pre) (.solve A b) = .vec (S.nan b) :=
+  (suitesparse_singular_reported S lib hl pre A b (same_pattern_compat S lib pre A hsame) hsing).1
 
 /-! ### Counterexamples on the faithful model (the defects of the real code) -/
 
@@ -121,23 +131,7 @@ theorem umfpack_undetected_pattern_change_undefined (B A : M) (b0 b : V) (hne : 
   by_cases hB : S.reg B = true <;>
     simp [runSt, stepSt, stepOut, init, ssSolveSt, ssSolveF, ssSolveDead, ssF0, numeric, ssSolveOut, hB, hne, hund]
 
-/-- UMFPACK: a singular matrix whose pattern differs from the cached one goes through the
-`except ValueError` branch; the NaN vector of the recursive call is dropped and `b` comes back unchanged. -/
-theorem umfpack_singular_after_resymbolic_returns_rhs (B A : M) (b0 b : V) (hne : S.pat B ≠ S.pat A)
-    (hdet : S.detects (S.pat B) (S.pat A) = true) (hsing : S.reg A = false) :
-    stepOut S .umfpack (runSt S .umfpack (init M P .umfpack) [.solve B b0]) (.solve A b) = .vec b := by
-  by_cases hB : S.reg B = true <;>
-    simp [runSt, stepSt, stepOut, init, ssSolveSt, ssSolveF, ssSolveDead, ssF0, numeric, ssSolveOut, hB, hne, hdet,
-      hsing]
-
-/-- SuiteSparse `linsolve` swallows the `ArithmeticError`: a singular matrix gives `b` back, whatever
-happened before -/
-theorem suitesparse_linsolve_singular_returns_rhs (lib : Lib) (hl : lib ≠ .spsolve) (s : St M P)
-    (hd : s.dead = false) (A : M) (b : V) (hsing : S.reg A = false) :
-    stepOut S lib s (.linsolve A b) = .vec b := by
-  cases lib <;> simp_all [stepOut, ssLinOut]
-
-/-- … whereas the SciPy worker reports it (NaN vector) -/
+/-- the SciPy worker reports a singular matrix in `linsolve` the same way (NaN vector) -/
 theorem spsolve_linsolve_singular_nan (s : St M P) (hd : s.dead = false) (A : M) (b : V)
     (hsing : S.reg A = false) : stepOut S .spsolve s (.linsolve A b) = .vec (S.nan b) := by
   simp [stepOut, spLinOut, hd, hsing]
@@ -301,13 +295,15 @@ theorem klu_pattern_change_counterexample :
     stepOut (tsys []) .klu (runSt (tsys []) .klu (init _ _ .klu) [.solve A1 Tag.rhs]) (.solve A3 .rhs) = .ub ∧
     A3.reg = true := by decide
 
-theorem umfpack_singular_counterexample :
+/-- the histories that failed on the pinned tree (singular matrix through the re-symbolic branch; singular
+matrix in `linsolve`): now NaN, on all three workers -/
+theorem umfpack_singular_after_resymbolic_witness :
     stepOut (tsys []) .umfpack (runSt (tsys []) .umfpack (init _ _ .umfpack) [.solve A1 Tag.rhs]) (.solve At .rhs)
-      = .vec .rhs ∧ (tsys []).nan Tag.rhs ≠ Tag.rhs := by decide
+      = .vec .nan ∧ (tsys []).nan Tag.rhs ≠ Tag.rhs := by decide
 
-theorem linsolve_singular_counterexample :
-    stepOut (tsys []) .klu (init _ _ .klu) (.linsolve As Tag.rhs) = .vec .rhs ∧
-    stepOut (tsys []) .umfpack (init _ _ .umfpack) (.linsolve As Tag.rhs) = .vec .rhs ∧
+theorem linsolve_singular_witness :
+    stepOut (tsys []) .klu (init _ _ .klu) (.linsolve As Tag.rhs) = .vec .nan ∧
+    stepOut (tsys []) .umfpack (init _ _ .umfpack) (.linsolve As Tag.rhs) = .vec .nan ∧
     stepOut (tsys []) .spsolve (init _ _ .spsolve) (.linsolve As Tag.rhs) = .vec .nan := by decide
 
 /-- the same singular matrix with an unchanged pattern IS reported -/
